@@ -55,7 +55,7 @@ def tlc(module, cfg=None, env=None, workers=1, timeout=1800, xmx="3g", extra=(),
     meta = os.path.join(BUILD, "tlc", tag)
     shutil.rmtree(meta, ignore_errors=True)
     os.makedirs(meta, exist_ok=True)
-    cmd = ["java", "-XX:+UseParallelGC", "-Xmx" + xmx, "-cp", JAVA_CP, "tlc2.TLC", "-workers", str(workers),
+    cmd = ["java", "-XX:+UseParallelGC", "-Xmx" + xmx, "-Xss64m", "-cp", JAVA_CP, "tlc2.TLC", "-noGenerateSpecTE", "-workers", str(workers),
            "-metadir", meta, "-config", os.path.join(SPEC, (cfg or module) + ".cfg")] + list(extra) + [os.path.join(SPEC, module + ".tla")]
     e = dict(os.environ)
     e.update({k: str(v) for k, v in (env or {}).items()})
@@ -287,7 +287,7 @@ def monitor(events, module="EncTrace", shards=None, timeout=3000, keys=("id", "p
         meta = os.path.join(BUILD, "tlc", tag)
         shutil.rmtree(meta, ignore_errors=True)
         os.makedirs(meta, exist_ok=True)
-        cmd = ["java", "-XX:+UseParallelGC", "-Xmx2g", "-cp", JAVA_CP, "tlc2.TLC", "-workers", "1", "-metadir", meta,
+        cmd = ["java", "-XX:+UseParallelGC", "-Xmx2g", "-Xss64m", "-cp", JAVA_CP, "tlc2.TLC", "-noGenerateSpecTE", "-workers", "1", "-metadir", meta,
                "-config", os.path.join(SPEC, module + ".cfg"), os.path.join(SPEC, module + ".tla")]
         p = subprocess.Popen(cmd, cwd=SPEC, env=dict(os.environ, TRACE=tr), stdout=subprocess.PIPE, stderr=subprocess.STDOUT, text=True)
         procs.append((p, tr, meta, len(part)))
